@@ -7,6 +7,10 @@ HOOK_COMMITS = ["189fd6a"]
 
 # id -> (technique, level text, level note, design ref)
 CLAIMED = {
+ "C09": ("Lean 4 theorems over the regenerated login-record layout (go/ast translation of LoginConfig.pack) + wire-level oracle with the peer's private key",
+         "Proof: for the layout regenerated from LoginConfig.pack on every run and every encrypted mode, the login record is identical for any two passwords (so it cannot contain the password in any encoding), its password slot is 31 zero bytes, lseclogin announces the extended-plus protocol; in the plain flow the password is in its slot (control); the record has its fixed size, oversized fields are rejected and fitting ones accepted. Partial by nature for the rest: that RSA-OAEP hides its input and that crypto/rand is fresh are cryptographic assumptions; the ciphertext messages are not modelled in Lean but checked on the real code by decrypting every ciphertext with the peer's private key (nonce || secret, 32-byte session key), searching all written bytes and error texts for every secret, and comparing two logins for freshness.",
+         "Trusted: Lean kernel; the extractor's translation of pack() (unrecognised statements are an error = broken tie); writeString/writeBasedOnEndian semantics transcribed by hand and tied by the `lr` correspondence; crypto/rsa, crypto/rand.",
+         "DESIGN.md §7 C09"),
  "C08": ("Lean 4 proof that the transcribed Login accepts exactly the regular acceptance language (both flows) + correspondence with Channel.Login against a scripted peer (all single-edit mutants of the valid scripts)",
          "Proof: for every configuration and every sequence of delivered packages, the model of Channel.Login reports success iff the sequence is a valid acceptance (plain: LOGINACK(SUCCEED), DONE(FINAL); encrypted: LOGINACK(NEGOTIATE), MSG(ENCRYPT4), PARAMFMT(3), PARAMS(INT4=1, key, nonce) with a usable key, DONE, then after any non-acknowledgement packages LOGINACK(SUCCEED), CAPABILITY not all-zero, DONE(FINAL)); every other sequence is an error or a wait bounded by the context, never a crash. The model is tied to login.go by running the real Login against a scripted in-memory peer on the valid scripts, all single-edit mutants and random multi-edit scripts; the oracle also checks Caps and PacketSize after success. The vacuous final-DONE check was found and repaired (fc85caa).",
          "Trusted: Lean kernel; hand transcription of login.go tied by the harness; RSA/PEM handling is a parameter (keyOK) exercised with a real 1024-bit key; replies are sequences of well-formed packages (byte-level malformation is C10); wall-clock bound of the wait = the caller's context (partial: modelled as the outcome `blocked`).",
